@@ -29,14 +29,15 @@ def confirm(wt):
     res = {}
     rc, out = sh("cargo test --workspace --no-fail-fast --offline 2>&1 | grep -E '^test |^test result'", cwd=wt)
     failed = sorted(set(re.findall(r"^test (\S+) \.\.\. FAILED", out, re.M)))
+    n_failed = len(re.findall(r"^test \S+ \.\.\. FAILED", out, re.M))      # the same test name may exist in both contracts
     passed = len(re.findall(r"^test \S+ \.\.\. ok", out, re.M))
-    res["with_change"] = {"passed": passed, "failed": failed}
+    res["with_change"] = {"passed": passed, "failed": failed, "n_failed": n_failed}
     rc, out2 = sh("git apply -R seed/patch.diff && cargo test --workspace --no-fail-fast --offline 2>&1 | grep -E '^test |^test result'; git apply seed/patch.diff", cwd=wt)
     failed2 = sorted(set(re.findall(r"^test (\S+) \.\.\. FAILED", out2, re.M)))
     passed2 = len(re.findall(r"^test \S+ \.\.\. ok", out2, re.M))
     res["without_change"] = {"passed": passed2, "failed": failed2}
     # the 107 pinned tests pass with the change; the only failures are demonstration tests, and they pass without it
-    res["ok"] = bool(failed) and not failed2 and passed >= 107 and passed2 == passed + len(failed)
+    res["ok"] = bool(failed) and not failed2 and passed >= 107 and passed2 == passed + n_failed
     return res
 
 
